@@ -376,10 +376,10 @@ func campaign(r *rep.Report, e rep.Env) {
 			o := op{Loc: l}
 			switch k := g.Intn(17); {
 			case k < 5:
-				o.Op, o.Id = "addFact", fmt.Sprintf("%s-f%d", l, g.Intn(3))
+				o.Op, o.Id = "addFact", fmt.Sprintf("%sf%d", factPrefix(hi, l), g.Intn(3))
 				o.Fact = map[string]interface{}{"a": gen.Strs[g.Intn(4)], "k": "v", "at": l}
 			case k < 6:
-				o.Op, o.Id = "remFact", fmt.Sprintf("%s-f%d", l, g.Intn(3))
+				o.Op, o.Id = "remFact", fmt.Sprintf("%sf%d", factPrefix(hi, l), g.Intn(3))
 			case k < 9:
 				o.Op, o.Id = "addRule", fmt.Sprintf("%s-r%d", l, g.Intn(2))
 				o.Fact = ruleMap(l, o.Id, []string{"go", "stop"}[g.Intn(2)])
@@ -586,6 +586,15 @@ func min(a, b int) int {
 		return a
 	}
 	return b
+}
+
+// factPrefix: fact ids are per location; every third history uses the same ids in
+// all locations, so that a location and its ancestors hold different facts under one id.
+func factPrefix(hi int, loc string) string {
+	if hi%3 == 2 {
+		return ""
+	}
+	return loc + "-"
 }
 
 func main() {
